@@ -222,7 +222,7 @@ def tasks(tier):
     for slmode in ("npa", "nst", "np", "ns"):
         for n, lay in enumerate(layouts):
             out.append(Task("normlist/%s/%d" % (slmode, n), h_normlist, dict(slmode=slmode, layout=lay)))
-        if tier == "thorough":
+        if tier == "thorough" or slmode in ("npa", "ns"):
             out.append(Task("normlist/%s/nspin2" % slmode, h_normlist, dict(slmode=slmode, layout=layouts[0], nspin=2)))
     return out
 
